@@ -1077,10 +1077,14 @@ def _abstract_nonlinear(fs, symmetric=False):
     def isnum(x):
         return z3.is_rational_value(x) or z3.is_int_value(x)
 
+    keep = []          # every term whose id is a memo key stays referenced: z3 recycles the ids of freed terms (the instantiated
+                       # body of one quantifier is a temporary; the body of the next one could get its id and hit its memo entry)
+
     def rb(t):
         k = t.get_id()
         if k in memo:
             return memo[k]
+        keep.append(t)
         if z3.is_quantifier(t):
             n = t.num_vars()
             cs = [z3.Const(Fresh.name("qv"), t.var_sort(i)) for i in range(n)]
